@@ -14,9 +14,10 @@ from ..common import MachineryError, NCPU
 from .. import build, tlc, run, idb, cpplib
 
 BATCH = 150
-QUICK = ["ExportDesc_sig", "ExportDesc_roles", "ExportDesc_ops", "ExportDesc_bases", "ExportDesc_nest", "ExportDesc_tops"]
+QUICK = ["ExportDesc_sig", "ExportDesc_roles", "ExportDesc_ops", "ExportDesc_bases", "ExportDesc_defbase", "ExportDesc_virt",
+         "ExportDesc_copy", "ExportDesc_nest", "ExportDesc_tops"]
 THOROUGH = [c + "_t" for c in QUICK]
-GXX = ["g++", "-std=c++17", "-fsyntax-only", "-w", "-D__published=public", "-D__begin_publish=", "-D__end_publish=",
+GXX = ["g++", "-std=c++17", "-fsyntax-only", "-w", "-D__published=public", "-D__begin_publish=", "-D__end_publish=", "-D__make_property(...)=", "-D__make_seq(...)=",
        "-I.", "-Isub", "-Iinc", "-Isys"]
 
 
@@ -66,12 +67,14 @@ def compare_case(cs, db):
         if isctor:
             ws = [w for w in ws if not w["is_copy_constructor"]]       # the implicit copy constructor shares the name
         chk("class of " + tag, C, db.tyname(fn["class"]))
-        chk("roles of " + tag,
-            dict(method=True, virtual=any(f["flags"]["virtual"] for f in fs), constructor=isctor, destructor=False,
-                 unary_op=unary, operator_typecast=f0["flags"]["typecast"]),
-            dict(method=bool(fn["is_method"]), virtual=bool(fn["is_virtual"]), constructor=bool(fn["is_constructor"]),
-                 destructor=bool(fn["is_destructor"]), unary_op=bool(fn["is_unary_op"]),
-                 operator_typecast=bool(fn["is_operator_typecast"])))
+        e_r = dict(method=True, virtual=any(f["flags"]["virtual"] for f in fs), constructor=isctor, destructor=False,
+                   unary_op=unary, operator_typecast=f0["flags"]["typecast"])
+        o_r = dict(method=bool(fn["is_method"]), virtual=bool(fn["is_virtual"]), constructor=bool(fn["is_constructor"]),
+                   destructor=bool(fn["is_destructor"]), unary_op=bool(fn["is_unary_op"]),
+                   operator_typecast=bool(fn["is_operator_typecast"]))
+        if e_r != o_r:          # an overload set of which some, not all, members are virtual: "virtual" = some overload is
+            mixed = len({bool(f["flags"]["virtual"]) for f in fs}) > 1
+            bad.append(("roles of " + tag, e_r, o_r, ["C05-overload-virtual-first"] if mixed else []))
         chk("wrapper variants (ordered parameters: name, type, this, optional) of " + tag,
             sorted(variant_key(cs, v) for f in fs for v in f["variants"]), sorted(wrapper_key(db, w) for w in ws))
         for f in fs:
@@ -85,6 +88,25 @@ def compare_case(cs, db):
                 chk("wrapper comment of " + tag, cs.doc(f["cm"], cs.mname(c, f["i"])), w["comment"] if w["has_comment"] else "")
         if len(fs) == 1:
             chk("comment of " + tag, cs.doc(f0["cm"], cs.mname(c, f0["i"])), fn["comment"] if fn["has_comment"] else "")
+    # constructors taking a class of the same simple name: which wrapper is THE copy constructor
+    byc = {}
+    for e in d.get("ctors", []):
+        byc.setdefault(e["c"], []).append(e)
+    for c, es in sorted(byc.items()):
+        C = cs.cscoped(c)
+        sc = C + "::" + cs.cname(c)
+        fns = db.funcs.get(sc, [])
+        tag = "%s (%s)" % (sc, " ".join(cs.member_text(c, e["i"]) for e in es))
+        if len(fns) != 1:
+            bad.append(("constructor function records for " + tag, 1, len(fns)))
+            continue
+        exp = [(variant_key(cs, v), bool(e["copy"])) for e in es for v in e["variants"]]
+        if not any(e["copy"] for e in es):          # the implicit copy constructor is exported next to the declared ones
+            exp.append((((None, C + " const *", False, False),), True))
+        obs = [(wrapper_key(db, w), bool(w["is_copy_constructor"])) for w in db.wrappers(fns[0])]
+        if sorted(exp, key=str) != sorted(obs, key=str):
+            bad.append(("constructors (parameters, is copy constructor) of " + tag, sorted(exp, key=str), sorted(obs, key=str),
+                        ["C05-copy-ctor-same-name"] if any(cs.cls[c - 1]["members"][e["i"] - 1]["k"] == "ctorof" for e in es) else []))
     for e in d["data"]:
         c, i = e["c"], e["i"]
         C, n = cs.cscoped(c), cs.mname(c, i)
@@ -140,7 +162,11 @@ def compare_case(cs, db):
         exp = sorted((cs.cscoped(x["base"]), bool(x["up"]), bool(x["down"]), bool(x["impossible"])) for x in k["derivations"])
         obs = sorted((db.tyname(x["base"]), bool(x["has_upcast"]), bool(x["has_downcast"]), bool(x["downcast_is_impossible"]))
                      for x in t["derivations"])
-        chk("bases of %s (base, upcast, downcast, downcast impossible)" % C, exp, obs)
+        if exp != obs:
+            K = cs.cls[c - 1]
+            bad.append(("bases of %s (base, upcast, downcast, downcast impossible)" % C, exp, obs,
+                        ["C05-default-base-access"] if any(b["acc"] == "default" and cs.cls[b["c"] - 1]["key"] != K["key"]
+                                                           for b in K["bases"]) else []))
         for x in t["derivations"]:
             B = db.tyname(x["base"])
             if x["has_upcast"]:
@@ -160,11 +186,24 @@ def compare_case(cs, db):
         if not t:
             bad.append(("enum record of " + sc, 1, 0))
             continue
-        n = cs.mname(c, i) + "v"
-        chk("enum " + sc, (True, True, cs.cscoped(c), [(n, cs.cscoped(c) + "::" + n, 0)]),
-            (bool(t["is_enum"]), bool(t["is_nested"]), db.tyname(t["outer_class"]),
-             [(v["name"], v["scoped_name"], v["value"]) for v in t["enum_values"]]))
-        chk("comment of enum " + sc, cs.doc(e["cm"], cs.mname(c, i)), t["comment"] if t["has_comment"] else "")
+        n = cs.mname(c, i)
+        kind = e.get("k", "enum")
+        vscope = sc if kind == "senum" else cs.cscoped(c)        # values of a scoped enum live in the enum's own scope
+        vals = [(n + "v", vscope + "::" + n + "v", 0, "")]
+        if kind == "enumc":                                       # enum E { v, /* about w */ w };
+            vals.append((n + "w", vscope + "::" + n + "w", 1, "/* about %sw */" % n))
+        fcls = ["C05-enum-inline-comment"] if kind == "enumc" else []
+        if kind in ("enum1", "enumc") and e["cm"]:
+            fcls.append("C05-enum-oneline-doc")
+        e_e = (True, True, kind == "senum", cs.cscoped(c), [v[:3] for v in vals])
+        o_e = (bool(t["is_enum"]), bool(t["is_nested"]), bool(t["is_scoped_enum"]), db.tyname(t["outer_class"]),
+               [(v["name"], v["scoped_name"], v["value"]) for v in t["enum_values"]])
+        if e_e != o_e:
+            bad.append(("enum " + sc, e_e, o_e, ["C05-scoped-enum-value-scope"] if kind == "senum" else []))
+        e_c = (cs.doc(e["cm"], cs.mname(c, i)), [v[3] for v in vals])
+        o_c = (t["comment"] if t["has_comment"] else "", [v["comment"] for v in t["enum_values"]])
+        if e_c != o_c:
+            bad.append(("comments of enum %s and its values" % sc, e_c, o_c, fcls))
     for e in d.get("typedefs", []):
         n = cs.tname(e["t"])
         t = db.types.get(n)
@@ -198,6 +237,12 @@ def compare_case(cs, db):
                 continue
             chk("manifest " + n, ("7", 7), (mf["definition"], mf["get_int_value"] if mf["has_int_value"] else None))
     return bad
+
+
+def lib_classes(cs):
+    """finding classes of a library: predicates over the INPUT only"""
+    out = []
+    return out
 
 
 def run_batch(a):
@@ -343,11 +388,13 @@ def run_check(ctx):
         for i, rec in ba[2]:
             cs = cpplib.Case(i, rec)
             d = rec["desc"]
-            n_facts += sum(len(d[k]) for k in ("fns", "data", "dtors", "classes", "enums", "tops", "typedefs"))
-            for what, e, o in res["bad"][i][:3]:
+            n_facts += sum(len(d.get(k, [])) for k in ("fns", "data", "ctors", "dtors", "classes", "enums", "tops", "typedefs"))
+            for item in res["bad"][i][:3]:
+                what, e, o = item[:3]
                 ctx.violation("%s: model says %s, database says %s" % (what, e, o),
                               dict(program=cs.text(), what=what, expected=e, observed=o, cmd=res["cmd"],
-                                   stat_key=what.split(" of ")[0].split(" for ")[0]))
+                                   stat_key=what.split(" of ")[0].split(" for ")[0]),
+                              classes=(item[3] if len(item) > 3 else []) + lib_classes(cs))
 
     # ---- comment placement ----
     sq = list(enumerate(seqs))
